@@ -121,7 +121,12 @@ static int upipe_row_join_set_flow_def(struct upipe *upipe,
         return UBASE_ERR_INVALID;
     UBASE_RETURN(uref_flow_match_def(flow_def, "pic."))
 
-    upipe_row_join_require_ubuf_mgr(upipe, flow_def);
+    struct uref *flow_def_dup = uref_dup(flow_def);
+    if (unlikely(flow_def_dup == NULL)) {
+        upipe_throw_fatal(upipe, UBASE_ERR_ALLOC);
+        return UBASE_ERR_ALLOC;
+    }
+    upipe_row_join_require_ubuf_mgr(upipe, flow_def_dup);
 
     UBASE_RETURN(uref_pic_flow_get_hsize(flow_def, &ctx->output_width));
     UBASE_RETURN(uref_pic_flow_get_vsize(flow_def, &ctx->output_height));
